@@ -31,7 +31,7 @@ SetB == {Bin(op, l, r) : op \in BinOps, l \in Leaves, r \in Leaves}
 SetC == {Bin(op, l, r) : op \in BinOps, l \in Flagged(Small5), r \in Flagged(Small5)}
 SetD(S) == {Bin(o2, Bin(o1, a, b), c) : o1 \in BinOps, o2 \in BinOps, a \in S, b \in S, c \in S}
       \cup {Bin(o2, a, Bin(o1, b, c)) : o1 \in BinOps, o2 \in BinOps, a \in S, b \in S, c \in S}
-StrLeaves == { Id("sa",""), Id("sb",""), Lit(<<97, 98>>), Lit(<<>>), Lit(<<104, 105, 32, 49, 33>>),
+StrLeaves == { Id("sa",""), Id("sb",""), Lit(<<97, 98>>), Lit(<<>>), Lit(<<104, 105, 32, 49, 33>>), Lit(<<97, 163, 98>>), Lit(<<8593, 8592>>),
                [k |-> "istr", parts |-> <<[lit |-> <<120>>], [ref |-> "sa"], [lit |-> <<121>>]>>],
                [k |-> "istr", parts |-> <<[ref |-> "ca"], [ref |-> "sb"]>>],
                [k |-> "istr", parts |-> <<[ref |-> "cb"]>>] }
